@@ -12,3 +12,6 @@ CONSTANTS
   DotNameHandled = FALSE
   RpcPosCheckedFirst = FALSE
   Utf8LabelsHandled = FALSE
+  SetupShapes = {"uri"}
+  AddrShapes = {"uri"}
+  AddrParsedUnchecked = FALSE
